@@ -41,10 +41,6 @@ Proof. intros H. unfold date_op. rewrite H. reflexivity. Qed.
 (* ---- the day count is the proleptic Gregorian calendar: every month start is the previous month start plus the length
    of that month, for EVERY year from 0 on. One 400-year cycle (4 800 month boundaries) is evaluated by the kernel; the
    formula is 400-year periodic (146 097 days), which extends the table to all years. ---- *)
-Definition leap (y : Z) : bool := ((y mod 4 =? 0) && negb (y mod 100 =? 0)) || (y mod 400 =? 0).
-Definition days_in_month (y m : Z) : Z :=
-  if (m =? 2) then (if leap y then 29 else 28)
-  else if (m =? 4) || (m =? 6) || (m =? 9) || (m =? 11) then 30 else 31.
 Definition next_month (y m : Z) : Z * Z := if m =? 12 then (y + 1, 1) else (y, m + 1).
 Definition month_ok (y m : Z) : bool :=
   let '(y', m') := next_month y m in
@@ -236,6 +232,9 @@ Proof.
   - unfold zlen, digits4. simpl. lia.
 Qed.
 
+Lemma dim_le_31 y m : 28 <= days_in_month y m <= 31.
+Proof. unfold days_in_month. destruct (m =? 2); [destruct (leap y); lia|]. destruct (_ || _); lia. Qed.
+
 (* a rendered UTC timestamp denotes the instant of its civil fields (years 0000-9999, second 60 allowed) *)
 Definition render_utc (y mo d h mi sec : Z) (tl zl : N) : str :=
   digits4 y ++ 45%N :: digits2 mo ++ 45%N :: digits2 d ++ tl :: digits2 h ++ 58%N :: digits2 mi ++ 58%N :: digits2 sec ++ [zl].
@@ -244,12 +243,13 @@ Definition civil_instant (y mo d h mi sec : Z) : Z :=
   (days_from_civil y mo d * 86400 + h * 3600 + mi * 60 + sec) * 1000000000.
 
 Theorem parse_render_utc y mo d h mi sec tl zl :
-  0 <= y <= 9999 -> 1 <= mo <= 12 -> 1 <= d <= 31 -> 0 <= h <= 23 -> 0 <= mi <= 59 -> 0 <= sec <= 60 ->
+  0 <= y <= 9999 -> 1 <= mo <= 12 -> 1 <= d <= days_in_month y mo -> 0 <= h <= 23 -> 0 <= mi <= 59 -> 0 <= sec <= 60 ->
   (tl = 84%N \/ tl = 116%N) -> (zl = 90%N \/ zl = 122%N) ->
   parse_rfc3339 (render_utc y mo d h mi sec tl zl) = Some (civil_instant y mo d h mi sec).
 Proof.
   intros Hy Hmo Hd Hh Hmi Hs Htl Hzl. destruct terms_ok as [T1 [T2 [T3 [T4 [T5 T6]]]]].
-  unfold parse_rfc3339, render_utc.
+  pose proof (dim_le_31 y mo) as H31.
+  unfold parse_rfc3339, parse_frac, parse_zone, render_utc.
   rewrite (num_field4 hyphen_t y 45%N) by (auto; lia).
   rewrite (num_field2 hyphen_t mo 45%N) by (auto; lia).
   rewrite (num_field2 t_t d tl) by (auto; try lia; destruct Htl; subst; reflexivity).
@@ -258,5 +258,7 @@ Proof.
   rewrite (num_field2 end_sec_t sec zl) by (auto; try lia; destruct Hzl; subst; reflexivity).
   assert (Hz : term_is (TChar zl) 46%N = false /\ term_is (TChar zl) 43%N = false /\ term_is (TChar zl) 45%N = false).
   { destruct Hzl; subst; repeat split; reflexivity. }
-  destruct Hz as [Z1 [Z2 Z3]]. rewrite Z1, Z2, Z3. cbn [orb]. unfold civil_instant. f_equal. lia.
+  destruct Hz as [Z1 [Z2 Z3]]. rewrite Z1, Z2, Z3. cbn [orb].
+  replace (days_in_month y mo <? d) with false by (symmetry; apply Z.ltb_ge; lia).
+  unfold civil_instant. f_equal. lia.
 Qed.
